@@ -40,6 +40,15 @@ def run_impl_case(case):
                 if not same:
                     bad.append(dict(kind='dump_changes_value', what='a dumped scalar (%s) reads back as a different value' % wname, text=text, got=show(back, ident=False)[:100], dumper=D.__name__, loader=L.__name__)); break
         return dict(bad=bad)
+    if isinstance(case, list) and case[0] == 'empty':
+        # empty plain scalars (with and without node properties) are typed by the same rules: '' is a null unless a tag says otherwise
+        text, expected = case[1], case[2]
+        for L in (yaml.SafeLoader, yaml.CSafeLoader):
+            try: got = repr(yaml.load(text, Loader=L))
+            except Exception as e: got = 'EXC ' + type(e).__name__
+            if got != expected:
+                bad.append(dict(kind='empty_scalar_value', what='%s: %r loads as %s, the YAML 1.1 rules give %s' % (L.__name__, text, got[:80], expected[:80]), loader=L.__name__))
+        return dict(bad=bad)
     if isinstance(case, list) and case[0] == 'hist':
         # history probe: once per worker, subclasses of the stock loader / dumper register implicit resolvers of their own (a
         # YAML 1.2 style float, on first characters the stock table already has; a wildcard one); the STOCK classes must go on
